@@ -87,6 +87,9 @@ def build_one(exe, rng, idx):
         order = order + [rng.choice(order[:-1])]
         acc = acc + [acc[0]]
     cfg.realms = [dict(name=b"*", srv=order, acc=acc if rng.random() < 0.5 else None, msg=None, accresp=False)]
+    if idx % 2 == 0:
+        # … and, before it, a realm that names ONE server: when that server has failed the realm has none (a list of one is a list)
+        cfg.realms.insert(0, dict(name=b"one.example", srv=[order[0]], acc=[order[0]], msg=b"down", accresp=True))
     cfg.opts["verifyeap"] = 0
     cfg.opts["loopprev"] = 0
     h = WH.Hist(exe, rng, cfg)
@@ -98,7 +101,7 @@ def build_one(exe, rng, idx):
             break
         r = rng.random()
         if r < 0.35:
-            pkt = h.make_request(0, code=rng.choice([1, 1, 4]), user=b"u@x", ident=ident % 256, extra=[], pwd=False)
+            pkt = h.make_request(0, code=rng.choice([1, 1, 4]), user=(b"u@one.example" if idx % 2 == 0 and ident % 3 == 0 else b"u@x"), ident=ident % 256, extra=[], pwd=False)
             ident += 1
             out = h.rq(0, pkt)
             if "fwd:" in out:
